@@ -29,7 +29,7 @@ W = []
 
 def add(fid, props, msg, ro=None, what=''):
     W.append({'kind': 'add', 'properties': props, 'ro': to_text(ro if ro is not None else base_ro()), 'msg': to_text(msg),
-              'meta': {'cls': msg[3].tag, 'witness': fid, 'what': what}})
+              'meta': {'cls': [c for c in msg if c.tag.startswith('ro')][-1].tag, 'witness': fid, 'what': what}})
 
 
 add('F1', ['C01', 'C03', 'C04'], story_send(5, 'B', body=[p('x'), E('storyItem', E('itemID', text='s1'))]), what='roStorySend for the 2nd story')
@@ -81,7 +81,7 @@ W.append({'kind': 'state', 'properties': ['C15', 'C16'],
 # ---- added later (appended so that earlier file names stay as they are)
 def add_late(fid, props, msg, ro, what):
     W.append({'kind': 'add', 'properties': props, 'ro': to_text(ro), 'msg': to_text(msg),
-              'meta': {'cls': msg[3].tag, 'witness': fid, 'what': what}})
+              'meta': {'cls': [c for c in msg if c.tag.startswith('ro')][-1].tag, 'witness': fid, 'what': what}})
 
 
 ro_noid = ro_create(ro_head() + [story('A', body=[item('a1')]), story(ABSENT, body=[item('a1')], slug='no id'), story('B')])
@@ -102,6 +102,11 @@ W.append({'kind': 'state', 'properties': ['C15', 'C16'],
                                                story('B', meta=E('mosExternalMetadata', E('mosSchema', text='x'), E('mosPayload', E('StoryDuration', text='0'), E('TextTime', text='7'), E('MediaTime', text='38')))),
                                                story('C', meta=payload(duration='4'))])),
           'meta': {'kind': 'corpus-S2-C16', 'what': 'explicit StoryDuration 0 beside TextTime / MediaTime'}})
+# F29: a message without messageID whose warning text raised after the first element had been applied
+_f29 = story_delete(5, ['A', 'A'])
+_f29.remove(_f29.find('messageID'))
+add_late('F29', ['C05', 'C06'], _f29, ro_create(ro_head() + [story('A'), story('B')]),
+         'roStoryDelete naming A twice, no messageID: A was deleted, then AttributeError from the text of the warning')
 
 d = os.path.join(ROOT, 'corpus')
 os.makedirs(d, exist_ok=True)
